@@ -92,7 +92,7 @@ def _check(prop, tier, seed, replay, work, t0):
             for k, v in s_["faults"].items():
                 e2e_faults[k] = e2e_faults.get(k, 0) + v
             shutil.copyfileobj(open(os.path.join(work, "e%d.ndjson" % i)), w)
-    eviol, etr = vlib.tlc_trace([os.path.join(SPEC, "trace", "TraceE2E.tla")], "TraceE2E", etrace, work, timeout=3000)
+    eviol, etr = vlib.tlc_trace([os.path.join(SPEC, "trace", "TraceE2E.tla")], "TraceE2E", etrace, work, timeout=3000, extra_constants='CONSTANT Prop = "C06"\n')
     elines = open(etrace).read().splitlines() if eviol else []
     for v in eviol:
         rec = json.loads(elines[v["line"] - 1])
